@@ -412,6 +412,62 @@ def run_join_shared_cache(seed):
     return problems
 
 
+def run_nested_join(seed):
+    """a Join whose side is itself a Join (on the same single field or on other fields), the nested one with the default or a custom
+    injective `to_key`: ids and fields of the outer join against the reference relational join on the VALUES of the key fields"""
+    rng = random.Random(seed)
+    problems = []
+    d = rel.gen_rel(rng, 'join')
+    if d['k'] != 'join' or len(d['on']) != 1:
+        return problems
+    on = d['on']
+    nested = dict(d, how=rng.choice(['inner', 'outer', 'left', 'right']))
+    if rng.random() < 0.6:
+        nested['key_prefix'] = rng.choice(['p:', 'key-'])
+    third = rel.gen_source(rng, 77, rel.gen_ids(rng, 1)[0], ['w'])
+    tbl = []
+    for n, i in enumerate(rel.UNIVERSE + rel.FOREIGN):
+        tbl.append([[i], f'{on[0]}-{(n * 3 + len(on[0]) + rng.choice([0, 0, 3])) % 9}'])
+    third['fields'][on[0]] = {'args': ['i'], 'table': tbl}
+    for kf in list(third['fields']):
+        if kf.startswith('k') and kf not in on:
+            del third['fields'][kf]
+    how = rng.choice(['inner', 'left', 'right', 'outer'])
+    outer = {'k': 'join', 'left': nested, 'right': third, 'on': on, 'how': how} if rng.random() < 0.5 else \
+        {'k': 'join', 'left': third, 'right': nested, 'on': on, 'how': how}
+    try:
+        r, rerr = rel.ref(outer), None
+        r.ids()
+    except rel.RErr as e:
+        r, rerr = None, e.kind
+    b = Builder()
+    try:
+        layer = b.layer(outer)
+        layer.ids
+        cerr = None
+    except Exception as e:
+        layer, cerr = None, exc_name(e)
+    if cerr or rerr:
+        if cerr != rerr:
+            problems.append({'desc': outer, 'msg': f'Join of a Join: construction {cerr}, reference {rerr}'})
+        return problems
+    fields = sorted(set(r.fields))
+    q = list(rel.UNIVERSE + rel.FOREIGN)
+    q += [x for x in r.ids() if x not in q]
+    a, e = rel.observe_rel(b, layer, fields, q), rel.ref_observe(r, fields, q)
+    for key in ('ids', 'ids_err'):
+        if canon(a.get(key)) != canon(e.get(key)):
+            problems.append({'desc': outer, 'msg': f'Join of a Join (nested to_key prefix {nested.get("key_prefix")!r}, how={how!r}): {key} '
+                                                   f'{canon(a.get(key))[:160]}, the reference gives {canon(e.get(key))[:160]}'})
+            return problems
+    for f in fields:
+        if canon(a['values'][f]) != canon(e['values'][f]):
+            problems.append({'desc': outer, 'msg': f'Join of a Join (nested to_key prefix {nested.get("key_prefix")!r}, how={how!r}): field {f}: '
+                                                   f'{canon(a["values"][f])[:160]}, the reference gives {canon(e["values"][f])[:160]}'})
+            return problems
+    return problems
+
+
 def run_shard(args):
     seed, n, kinds = args
     recs = []
@@ -464,6 +520,10 @@ def run_shard(args):
             for p in run_join_shared_cache(seed * 19 + i):
                 oracle_bad.append({'desc': p['desc'], 'diffs': [['join-shared-cache', p['msg']]]})
         stats['join_shared_cache_cases'] = max(2, n // 4)
+        for i in range(max(2, n // 3)):
+            for p in run_nested_join(seed * 23 + i):
+                oracle_bad.append({'desc': p['desc'], 'diffs': [['nested-join', p['msg']]]})
+        stats['nested_join_cases'] = max(2, n // 3)
     if kinds and 'check_ids' in kinds:
         for i in range(max(2, n // 5)):
             for p in run_dynamic_ids(seed * 7 + i):
